@@ -104,6 +104,10 @@ def shadow(patch, props, tier="quick", keep=False):
     finally:
         if not keep:
             sh("git -C /repo worktree remove --force %s" % wt)
+            if any(r["exit"] == 1 for r in results.values()) and os.path.isdir(wt + ".out/replays"):
+                keepd = "/var/tmp/verif-scratch/shadow_alarms/%s" % name
+                shutil.rmtree(keepd, ignore_errors=True)
+                shutil.copytree(wt + ".out/replays", keepd)
             shutil.rmtree(wt + ".out", ignore_errors=True)
     return results
 
